@@ -177,6 +177,69 @@ def missing_avps(r1: int, r2: int, r3: int) -> bool:
                     "missing required AVP(s): 5005 from the node with Failed-AVP listing exactly the missing ones; the application sees nothing")
 
 
+
+# ----------------------------------------------------------------------------- A2. required AVPs the class pre-sets, missing on the wire
+def defaulted_rows(cls):
+    """required scalar rows that a fresh instance of the class already fills in"""
+    fresh = cls()
+    return [(i, d) for i, d in enumerate(C03.rows_of(cls))
+            if d.is_required and getattr(fresh, d.attr_name, None) is not None and not isinstance(getattr(fresh, d.attr_name), list)]
+
+
+def _strip_avp(wire, code, vendor):
+    g = Message.from_bytes(wire, plain_msg=True)
+    g.avps = [a for a in g.avps if (a.code, a.vendor_id) != (code, vendor)]
+    return g.as_bytes()
+
+
+def missing_defaulted(r: int) -> bool:
+    """
+    pre: 0 <= r < P["nrows"]
+    post: _
+    """
+    hx.begin()
+    cls = C03.CLASSES[P["cls"]]
+    rows = defaulted_rows(cls)
+    k = hx.concretize_range(r, 0, len(rows))
+    i, d = rows[k]
+    inputs = (r,)
+    try:
+        with hx.untraced():
+            b = _bench(0)
+            app = b.apps[0]
+            c = _ready_conn(b, 0)
+            m = _fill(cls())
+            m.header.application_id = 4
+            m.header.hop_by_hop_identifier = 51
+            m.header.end_to_end_identifier = 52
+            wire = _strip_avp(m.as_bytes(), d.avp_code, d.vendor_id)        # the AVP is absent from the message as received
+            b.inject(c, Message.from_bytes(wire))
+            out = drain(c)
+            rc = [getattr(a, "result_code", None) for a in out if not a.header.is_request]
+            delivered = len(app.requests)
+    except Exception as e:
+        return hx.fail(inputs, "raised %s: %s" % (type(e).__name__, str(e)[:80]))
+    if "c08_defaulted_required_avp" in P["carve"]:
+        # known finding: the class default stands in for the missing AVP.  Still required: delivered once or answered 5005, never both
+        return hx.holds(inputs, (delivered, rc) in ((1, []), (0, [5005])), (delivered, rc), "request lacking a required AVP: neither delivered once nor answered 5005")
+    return hx.check(inputs, (delivered, rc), (0, [5005]), "a request that lacks the required AVP %s on the wire must be answered 5005 and not shown to the application" % d.attr_name)
+
+
+def repro_defaulted_required():
+    cls = C03.CLASSES["m:credit_control.CreditControlRequest"]
+    b = _bench(0)
+    c = _ready_conn(b, 0)
+    m = _fill(cls())
+    m.header.application_id = 4
+    m.header.hop_by_hop_identifier = 51
+    m.header.end_to_end_identifier = 52
+    wire = _strip_avp(m.as_bytes(), 258, 0)
+    b.inject(c, Message.from_bytes(wire))
+    out = drain(c)
+    return len(b.apps[0].requests) == 1, "CCR without Auth-Application-Id on the wire: delivered %d time(s), node answers %r" % (
+        len(b.apps[0].requests), [getattr(a, "result_code", None) for a in out])
+
+
 # ----------------------------------------------------------------------------- B. routing dimensions
 def routing(ai: int, ri: int, sender: int, raises: bool) -> bool:
     """
@@ -249,6 +312,11 @@ def specs(tier, seed, carve):
         n_ = len(required_scalar_rows(C03.CLASSES[name]))
         out.append(dict(id="missing_avps/" + name[2:], fn="missing_avps", params={"cls": name, "nreq": n_, "three": not q}, timeout=600 if q else 2400,
                         bound="%s: every set of <= %d of its %d required attributes removed (request decoded from bytes, preceded by a DWR)" % (name[2:], 2 if q else 3, n_)))
+    for name in REQS:
+        nd = len(defaulted_rows(C03.CLASSES[name]))
+        if nd:
+            out.append(dict(id="missing_defaulted/" + name[2:], fn="missing_defaulted", params={"cls": name, "nrows": nd}, timeout=300,
+                            bound="%s: each of the %d required AVPs that the python class pre-sets (e.g. Auth-Application-Id) removed from the encoded request" % (name[2:], nd)))
     for cfg in (0, 1, 2, 3):
         for cmd in ("ccr", "acr"):
             out.append(dict(id="routing/cfg%d/%s" % (cfg, cmd), fn="routing", params={"cfg": cfg, "cmd": cmd}, timeout=900,
